@@ -229,10 +229,10 @@ Definition tls_result (now : Z) (c : tlsinfo) : result :=
   | IpErr, None => Refuse 500
   end.
 
-Lemma tls_result_sound now q c u level iat :
-  q_tls q = Some c -> tls_result now c = Admit u level iat -> cert_proves q u level.
+Lemma tls_result_sound st now q c u level iat :
+  q_tls q = Some c -> names_somebody st c -> tls_result now c = Admit u level iat -> cert_proves st q u level.
 Proof.
-  intros TL. unfold tls_result.
+  intros TL NS. unfold tls_result.
   destruct (ip_restricted c) eqn:IP; destruct (km_signed c) as [[ku knb]|] eqn:KM;
     intro H; inversion H; subst; clear H.
   - apply km_signed_some in KM. destruct KM as [K _]. apply ip_restricted_ok in IP. eapply CP_both; eauto.
@@ -241,13 +241,32 @@ Proof.
   - apply km_signed_some in KM. destruct KM as [K ->]. eapply CP_km; eauto.
 Qed.
 
-Lemma cert_proves_proves st now q u level : cert_proves q u level -> proves st now q u level.
+Lemma cert_proves_proves st now q u level : cert_proves st q u level -> proves st now q u level.
 Proof.
-  intros [c A B C D|c A B C D|c A B C D E].
+  intros [c A N B C D|c A N B C D|c A N B C D E].
   - eapply P_km_cert; eauto.
   - eapply P_ip_cert; eauto.
   - eapply P_both; eauto.
 Qed.
+
+(* a certificate without a name: never a keymaster identity; refused unless the address test accepts it *)
+Lemma km_signed_without_km c : km_signed (without_km c) = None.
+Proof. unfold km_signed, without_km. cbn. destruct (c_chain2 c); cbn; [|reflexivity]. destruct (c_issuer c); destruct (c_denied c); reflexivity. Qed.
+Lemma ip_restricted_without_km c : ip_restricted (without_km c) = ip_restricted c.
+Proof. reflexivity. Qed.
+Lemma tls_result_nameless now c : ip_restricted c <> IpOk -> exists code, tls_result now (without_km c) = Refuse code.
+Proof.
+  intro N. unfold tls_result. rewrite km_signed_without_km, ip_restricted_without_km.
+  destruct (ip_restricted c); [contradiction| |]; eauto.
+Qed.
+
+Lemma effective_tls_named st q c : q_tls q = Some c -> names_somebody st c -> effective_tls st q = Some c.
+Proof.
+  intros TL NS. unfold effective_tls. rewrite TL. unfold names_somebody in NS.
+  destruct (s_name st (c_cn c)); [contradiction NS; reflexivity|reflexivity].
+Qed.
+Lemma effective_tls_none st q : q_tls q = None -> effective_tls st q = None.
+Proof. intro TL. unfold effective_tls. rewrite TL. reflexivity. Qed.
 
 Lemma check_auth_sound st now lim q u level iat :
   check_auth now lim bAny (auth_request st q) = Admit u level iat -> proves st now q u level.
@@ -256,15 +275,23 @@ Proof.
   set (csrf := if match q_method q with HGet => true | _ => false end then None else _).
   destruct csrf as [x|] eqn:CS.
   - subst csrf. apply csrf_none_or_refuse in CS. destruct CS as [code ->]. discriminate.
-  - clear CS csrf. destruct (q_tls q) as [c|] eqn:TL.
-    + intro H. apply cert_proves_proves. eapply tls_result_sound; eauto.
+  - clear CS csrf. unfold effective_tls. destruct (q_tls q) as [c|] eqn:TL.
+    + destruct (s_name st (c_cn c)) as [|n0 nr] eqn:NM.
+      * destruct (ip_restricted c) eqn:IP.
+        -- apply cookie_branch_sound.
+        -- intro H. destruct (tls_result_nameless now c) as [code E]; [rewrite IP; discriminate|].
+           unfold tls_result in E. rewrite E in H. discriminate.
+        -- intro H. destruct (tls_result_nameless now c) as [code E]; [rewrite IP; discriminate|].
+           unfold tls_result in E. rewrite E in H. discriminate.
+      * intro H. apply cert_proves_proves. eapply tls_result_sound; eauto.
+        unfold names_somebody. rewrite NM. discriminate.
     + apply cookie_branch_sound.
 Qed.
 
-(* with a client certificate on the connection the answer of checkAuth does not depend on the
-   cookie or the Basic header, and an admission is the certificate's own *)
+(* with a client certificate that names somebody on the connection the answer of checkAuth does not
+   depend on the cookie or the Basic header, and an admission is the certificate's own *)
 Lemma check_auth_with_cert st now lim q c :
-  q_tls q = Some c ->
+  q_tls q = Some c -> names_somebody st c ->
   check_auth now lim bAny (auth_request st q) =
   match (if match q_method q with HGet => true | _ => false end then None
          else match q_origin q with BadOrigin => Some (Refuse 400) | CrossOrigin => Some (Refuse 401) | _ => None end) with
@@ -272,9 +299,16 @@ Lemma check_auth_with_cert st now lim q c :
   | None => tls_result now c
   end.
 Proof.
-  intro TL. rewrite check_auth_any_eq. unfold check_auth_any. cbn [auth_request r_get r_origin r_tls r_cred].
-  rewrite TL. reflexivity.
+  intros TL NS. rewrite check_auth_any_eq. unfold check_auth_any. cbn [auth_request r_get r_origin r_tls r_cred].
+  rewrite (effective_tls_named st q c TL NS). reflexivity.
 Qed.
+
+Lemma csrf_cases (q : certreq) :
+  (exists code, (if match q_method q with HGet => true | _ => false end then None
+                 else match q_origin q with BadOrigin => Some (Refuse 400) | CrossOrigin => Some (Refuse 401) | _ => None end) = Some (Refuse code)) \/
+  (if match q_method q with HGet => true | _ => false end then None
+   else match q_origin q with BadOrigin => Some (Refuse 400) | CrossOrigin => Some (Refuse 401) | _ => None end) = None.
+Proof. destruct (q_method q); destruct (q_origin q); eauto. Qed.
 
 (* every refusal of checkAuth carries an error status *)
 Lemma check_auth_refuse_code now lim r code :
